@@ -403,6 +403,9 @@ structure Exec (V : Type) where
   queue : List Nat := []
   /-- `selecting: HashSet<ProcessId>` -/
   selecting : List Nat := []
+  /-- `spawning`, `effecting: HashSet<ProcessId>` (used by Core/Exec/Error.lean: status, effect completions) -/
+  spawning : List Nat := []
+  effecting : List Nat := []
 
 def Exec.getProc {V} (ex : Exec V) (pid : Nat) : Option (Proc V) := amLookup pid ex.procs
 
@@ -463,8 +466,12 @@ def Exec.killAwaiterOld {V} (ex : Exec V) (awaiter : Nat) (e : ErrClass) : Exec 
   | some p => ex.setProc awaiter (p.failWith e)
   | none => ex
 
-/-- `mark_active` for a selecting process (`update_await_results` when no result was included) -/
-def Exec.markActive {V} (ex : Exec V) (pid : Nat) : Exec V := ex.wake pid
+/-- `mark_active` (`update_await_results` when no result was included): leave `spawning` /
+    `selecting`, and be queued if it was in either. -/
+def Exec.markActive {V} (ex : Exec V) (pid : Nat) : Exec V :=
+  let was := decide (pid ∈ ex.spawning ∨ pid ∈ ex.selecting)
+  let ex1 := { ex with spawning := ex.spawning.filter (· != pid), selecting := ex.selecting.filter (· != pid) }
+  if was then { ex1 with queue := ex1.queue ++ [pid] } else ex1
 
 /-- One execution of the Select instruction by the running process `pid` (already popped from the
     queue by `step`), including the `mark_selecting` of the parking outcomes. -/
